@@ -535,4 +535,12 @@ Proof.
   - destruct H as [i [els [-> [Ha ->]]]]. rewrite Ha. destruct invert; repeat split; reflexivity.
   - destruct H as [i [kvs [-> ->]]]. destruct invert; repeat split; reflexivity.
 Qed.
+
+(* a parameter text SearchKeywordTerms.parameters cannot split (unmatched
+   quote): refused by the dispatcher for every keyword, before the data is
+   looked at (finding F31, repaired: it was the accessor's bare ValueError) *)
+Lemma unsplit_params_refused : forall doc invert kw raw x,
+  keyword_parameters raw = Raise (PyCrash ValueError) ->
+  keyword_search lit re_search node_str doc invert kw raw x = Raise (YPE Generic).
+Proof. intros doc invert kw raw x H. unfold keyword_search. rewrite H. reflexivity. Qed.
 End Params.
